@@ -24,7 +24,7 @@ pub struct Case {
     pub steps: Vec<Step>,
 }
 
-fn gen_start(u: &mut Unstructured) -> arbitrary::Result<i64> {
+pub fn gen_start(u: &mut Unstructured) -> arbitrary::Result<i64> {
     let k = u.int_in_range(0..=7u8)?;
     if k == 7 {
         // the turn of a year next to a leap year / a common century year, any day of Nov..Mar
@@ -55,7 +55,7 @@ fn gen_start(u: &mut Unstructured) -> arbitrary::Result<i64> {
     Ok(cal::days_from_ymd(y, m, d) * 86_400 + tod)
 }
 
-fn gen_schedule(u: &mut Unstructured) -> arbitrary::Result<String> {
+pub fn gen_schedule(u: &mut Unstructured) -> arbitrary::Result<String> {
     // biased to sparse sets and to both day fields restricted
     let sparse = u.ratio(2, 3)?;
     let minute = if u.ratio(1, 3)? { "*".to_string() } else { c16::gen_field(u, FieldKind::Minute, sparse)? };
